@@ -303,7 +303,7 @@ func engineOracles(c *Ctx, ec *eCase, recs []reqRec) {
 	hasCroak := appHas(ec, "CROAK")
 	hasReload := appHas(ec, "RELOAD")
 	sizes := loadSizes(ec)
-	pers := ec.mode != "long"
+	pers := ec.mode == "pers"
 	hasFirst := len(ec.firsts) > 0
 	staticSym := ec.staticSyms() // served by DbResource from STATICLOAD: their calls are not logged
 	var prev *reqRec
